@@ -55,7 +55,7 @@ def velocity_sign(name, state):
     while hasattr(s, "env_state"):
         s = s.env_state
     y = s.y
-    return {"CartPole": y[3], "MountainCar": y[1], "ContinuousMountainCar": y[1], "Pendulum": y[1], "Acrobot": y[2]}[name]
+    return {"CartPole": y[3], "MountainCar": y[1], "ContinuousMountainCar": y[1], "Pendulum": y[1], "Acrobot": y[3]}[name]
 
 
 def make_rollout(env, name, T):
